@@ -23,7 +23,9 @@ Inductive op :=
    through Model/ProxDispatch.validate_kwargs); aux = norm tape of the selected operator.
    ORouted: the implementation returned; ORejected: the implementation raised ValueError *)
 | ORouted (n_const : option nat) (order : nat) (specs : kwargs) (aux : Q)
-| ORejected (n_const order : nat) (specs : kwargs).
+| ORejected (n_const order : nat) (specs : kwargs)
+(* the call o on a tensor with ndim >= 3 dimensions (presented as first axis x the rest): raised = the implementation raised ValueError *)
+| ONd (ndim : nat) (raised : bool) (o : op).
 
 (* the operators proximal_operator can select (Model/ProxDispatch.pop) among the operators of the correspondence *)
 Definition of_pop (o : @pop Q) : op :=
@@ -49,6 +51,7 @@ Definition resolve_op (o : op) : option op :=
       | Err => None
       end
   | ORejected _ _ _ => None
+  | ONd _ _ _ => None
   | _ => Some o
   end.
 
@@ -126,12 +129,7 @@ Definition uni_ok (atol rtol eps : Q) (rows out : M) : bool :=
 
 (* case: id, operator, input rows, implementation's output rows, atol, rtol *)
 Definition case := (nat * op * M * M * Q * Q)%type.
-Definition agree (c : case) : bool :=
-  let '(_, o0, rows, out, atol, rtol) := c in
-  match o0 with
-  | ORejected n ord specs => match validate_kwargs n ord specs with Err => true | Ok _ => false end
-  | _ =>
-  match resolve_op o0 with None => false | Some o =>
+Definition agree_op (o : op) (rows out : M) (atol rtol : Q) : bool :=
   model_cert atol rtol o rows &&
   match o with
   | OHard k => same_shape rows out && valid_ht Qops k (concat rows) (concat out)
@@ -140,6 +138,17 @@ Definition agree (c : case) : bool :=
   | OUnimodal => uni_ok atol rtol (Qred (atol * 1000)) rows out
   | OProcrustes _ _ _ => rows_close (1 # 1000000000) rtol (run o rows) out
   | _ => rows_close atol rtol (run o rows) out
-  end end end.
+  end.
+Definition agree (c : case) : bool :=
+  let '(_, o0, rows, out, atol, rtol) := c in
+  match o0 with
+  | ORejected n ord specs => match validate_kwargs n ord specs with Err => true | Ok _ => false end
+  | ONd nd raised o1 =>
+      (* raised-iff-the-model-refuses (Model/ProxDispatch.ndim_ok); an accepted call is compared as usual *)
+      match resolve_op o1 with None => false | Some o =>
+      match to_pop o with None => false | Some po =>
+      if raised then negb (ndim_ok po nd) else ndim_ok po nd && agree_op o rows out atol rtol end end
+  | _ => match resolve_op o0 with None => false | Some o => agree_op o rows out atol rtol end
+  end.
 Definition ident (c : case) : nat := let '(i, _, _, _, _, _) := c in i.
 Definition failing := failing_ids agree ident.
